@@ -2,7 +2,7 @@
    harness ran on the real drivers and reports the indices of disagreeing cases. *)
 From Coq Require Import List String Bool Arith NArith.
 From Helm Require Import Common.Assoc Common.Strs Storage.Spec Storage.Mem Storage.Kube
-  Storage.MemNs Storage.KubeX.
+  Storage.Rmw Storage.MemNs Storage.KubeX.
 Import ListNotations.
 
 Inductive backend := BMem | BSecret | BConfigMap.
@@ -11,7 +11,8 @@ Inductive backend := BMem | BSecret | BConfigMap.
 Inductive cop :=
 | COp (o : op)
 | CCorrupt (name : string) (ver : nat) (status : string)   (* Secret/ConfigMap only *)
-| CSetNs (ns : string).                                   (* memory only *)
+| CSetNs (ns : string)                                    (* memory only *)
+| CRmw (name : string) (ver : nat) (status : string).     (* Storage/Rmw.v: query, change status, update *)
 
 Record case := mkCase { cbackend : backend; cops : list cop; cobs : list out }.
 
@@ -25,11 +26,26 @@ Fixpoint all_some {A B} (f : A -> option B) (l : list A) : option (list B) :=
   end.
 
 Definition to_mop (c : cop) : option mop :=
-  match c with COp o => Some (MOp o) | CSetNs ns => Some (MSetNs ns) | CCorrupt _ _ _ => None end.
+  match c with
+  | COp o => Some (MOp o) | CSetNs ns => Some (MSetNs ns) | CRmw n v st => Some (MRmw n v st)
+  | CCorrupt _ _ _ => None
+  end.
 Definition to_xop (c : cop) : option xop :=
-  match c with COp o => Some (XOp o) | CCorrupt n v st => Some (XCorrupt n v st) | CSetNs _ => None end.
-Definition to_op (c : cop) : option op :=
-  match c with COp o => Some o | _ => None end.
+  match c with
+  | COp o => Some (XOp o) | CCorrupt n v st => Some (XCorrupt n v st) | CRmw n v st => Some (XRmw n v st)
+  | CSetNs _ => None
+  end.
+(* calls the flat reference map can answer: driver calls and read-modify-write *)
+Inductive sop := SOp (o : op) | SRmw (name : string) (ver : nat) (status : string).
+Definition to_sop (c : cop) : option sop :=
+  match c with COp o => Some (SOp o) | CRmw n v st => Some (SRmw n v st) | _ => None end.
+
+Fixpoint spec_srun (s : spec) (xs : list sop) : list out :=
+  match xs with
+  | [] => []
+  | SOp o :: t => let '(s', r) := spec_step s o in r :: spec_srun s' t
+  | SRmw n v st :: t => let '(s', r) := rmw spec_step s n v st in r :: spec_srun s' t
+  end.
 
 (* the codec instance used when running the model: a body is a release or undecodable *)
 Definition run_kube := kube_xrun (option rel) (fun r => Some r) (fun b => b) (fun _ => true) None.
@@ -57,10 +73,10 @@ Definition out_spec_b (m s : out) : bool :=
   end.
 
 (* all written releases in one namespace (the hypothesis of C10_mem_refines_spec) *)
-Fixpoint one_ns (seen : option string) (ops : list op) : bool :=
+Fixpoint one_ns (seen : option string) (ops : list sop) : bool :=
   match ops with
   | [] => true
-  | (OCreate r | OUpdate r) :: t =>
+  | (SOp (OCreate r) | SOp (OUpdate r)) :: t =>
       match seen with
       | Some ns => String.eqb (ns_of r) ns && one_ns seen t
       | None => one_ns (Some (ns_of r)) t
@@ -74,10 +90,10 @@ Fixpoint one_ns (seen : option string) (ops : list op) : bool :=
    within the hypotheses of the refinement theorems: after dropping system labels. *)
 Definition case_ok (c : case) : bool :=
   outs_agree out_equiv_b (model_run (cbackend c) (cops c)) (cobs c)
-  && match all_some to_op (cops c) with
+  && match all_some to_sop (cops c) with
      | Some ops =>
          if match cbackend c with BMem => one_ns None ops | _ => true end
-         then outs_agree out_spec_b (map strip_out (cobs c)) (map strip_out (spec_run [] ops))
+         then outs_agree out_spec_b (map strip_out (cobs c)) (map strip_out (spec_srun [] ops))
          else true
      | None => true
      end.
